@@ -159,9 +159,9 @@ pub fn property() -> Property {
         ],
         health: vec![("compute.children", "compute-ok", 300), ("compute.children", "children-differ", 150)],
         subs: vec![
-            prop_sub("compute.children", 10_000, 500_000, |_| children_case(), oracle_with(64, 30_000)),
-            prop_sub("compute.errors", 8_000, 300_000, |_| error_case(), oracle_with(64, 30_000)),
-            prop_sub("compute.large_breadth", 60, 600, large_case, oracle_with(5000, 200_000)).shards(4),
+            prop_sub("compute.children", 30_000, 500_000, |_| children_case(), oracle_with(64, 30_000)),
+            prop_sub("compute.errors", 24_000, 300_000, |_| error_case(), oracle_with(64, 30_000)),
+            prop_sub("compute.large_breadth", 180, 1_440, large_case, oracle_with(5000, 200_000)).shards(4),
         ],
     }
 }
